@@ -340,7 +340,7 @@ fn main() {
     if ctx.enabled(mname) {
         let mon = Monitor::new(
             mname,
-            "WCAG 2.1 relative contrast for Srgb / LinSrgb / Luma (f32/f64; trait Wcag21RelativeContrast and the deprecated RelativeContrast): equals (L1+0.05)/(L2+0.05) of the linear luminances, symmetric, within [1, 21] for in-gamut colours, threshold predicates agree with the ratio (points straddling 3, 4.5 and 7 included); distinct = (type, ratio bucket)",
+            "WCAG 2.1 relative contrast for Srgb / LinSrgb / Luma (f32/f64; trait Wcag21RelativeContrast and the deprecated RelativeContrast): equals (L1+0.05)/(L2+0.05) of the linear luminances, symmetric, within [1, 21] for in-gamut colours, threshold predicates agree with the ratio (points straddling 3, 4.5 and 7, and all pairs of linear luma on the 1/1000 grid, which contain ratios exactly on a threshold); distinct = (type, ratio bucket)",
         );
         let replay = ctx.replay_input(mname, "Srgb");
         let res = par(if ctx.replaying() { 1 } else { ctx.threads }, |t| {
@@ -434,6 +434,43 @@ fn main() {
             }
             vec![m]
         });
+        // ratios that hit a threshold bit-exactly: linear luma on a decimal grid (0.0 vs 0.1 -> 3.0, 0.0 vs 0.175 -> 4.5, ...)
+        let mut res = res;
+        if !ctx.replaying() {
+            let m = res.iter_mut().find(|m| m.name == mname).unwrap();
+            let mut exact = 0u64;
+            macro_rules! grid {
+                ($T:ty, $name:expr) => {{
+                    for i in 0..=1000u32 {
+                        for j in i..=1000u32 {
+                            let (la, lb) = (i as $T / 1000.0, j as $T / 1000.0);
+                            let (a, b) = (palette::LinLuma::<palette::white_point::D65, $T>::new(la), palette::LinLuma::<palette::white_point::D65, $T>::new(lb));
+                            let r = a.relative_contrast(b);
+                            let preds = [
+                                (a.has_min_contrast_text(b), 4.5, "min_text"),
+                                (a.has_min_contrast_large_text(b), 3.0, "min_large_text"),
+                                (a.has_enhanced_contrast_text(b), 7.0, "enhanced_text"),
+                                (a.has_enhanced_contrast_large_text(b), 4.5, "enhanced_large_text"),
+                                (a.has_min_contrast_graphics(b), 3.0, "min_graphics"),
+                            ];
+                            m.eval();
+                            for (p, k, name) in preds {
+                                if r == k {
+                                    exact += 1;
+                                }
+                                if p != (r >= k) {
+                                    m.violate($name, &format!("predicate_{}", name), json!({"bits": null, "linear_luma1": la as f64, "linear_luma2": lb as f64}), json!(p), json!({"ratio": r as f64, "threshold": k as f64}), "a ratio equal to the threshold meets it");
+                                }
+                            }
+                        }
+                    }
+                }};
+            }
+            grid!(f32, "LinLuma/f32");
+            grid!(f64, "LinLuma/f64");
+            m.counters.insert("ratios_exactly_on_a_threshold".into(), exact);
+            m.cell(1000);
+        }
         for mut m in res {
             m.tolerance = Some("2e-6 relative (f32 2e-5) to (L1+0.05)/(L2+0.05) with L = luminance row of the derived sRGB matrix; symmetry and predicates exact".into());
             m.sample(|| json!({"a": [1.0, 1.0, 1.0], "b": [0.0, 0.0, 0.0], "ratio": Srgb::<f64>::new(1.0, 1.0, 1.0).relative_contrast(Srgb::new(0.0, 0.0, 0.0))}));
